@@ -94,7 +94,7 @@ type envSpec struct {
 	States  []int `json:"states"`  // per store 1..N
 	Layout  int   `json:"layout"`  // 0 all stores in one zone/host, 1 zones z1 z1 z2 z2 z3 z3 with hosts
 	Feature int   `json:"feature"` // 0 joint consensus used, 1 supported but switched off (demote allowed), 2 not supported
-	Rules   int   `json:"rules"`   // 0 the default configuration (placement rules on, default rule only), 1 voters in z1/z2 + learner in z3, 2 placement rules switched off
+	Rules   int   `json:"rules"`   // 0 the default configuration (placement rules on, default rule only), 1 voters in z1/z2 + learner in z3, 2 placement rules switched off, 3 leader in z1 + 2 followers outside z1
 }
 
 func (e envSpec) key() string { b, _ := json.Marshal(e); return string(b) }
@@ -268,6 +268,14 @@ func newCluster(e envSpec) (*mockcluster.Cluster, context.CancelFunc) {
 			LabelConstraints: []placement.LabelConstraint{{Key: "zone", Op: placement.In, Values: []string{"z1", "z2"}}}}))
 		must(c.RuleManager.SetRule(&placement.Rule{GroupID: "pd", ID: "z3", Role: placement.Learner, Count: 1,
 			LabelConstraints: []placement.LabelConstraint{{Key: "zone", Op: placement.In, Values: []string{"z3"}}}}))
+	}
+	if e.Rules == 3 {
+		// a leader rule and a follower rule: voters on the follower stores must never lead
+		c.SetEnablePlacementRules(true)
+		must(c.RuleManager.SetRule(&placement.Rule{GroupID: "pd", ID: "default", Role: placement.Leader, Count: 1,
+			LabelConstraints: []placement.LabelConstraint{{Key: "zone", Op: placement.In, Values: []string{"z1"}}}}))
+		must(c.RuleManager.SetRule(&placement.Rule{GroupID: "pd", ID: "followers", Role: placement.Follower, Count: 2,
+			LabelConstraints: []placement.LabelConstraint{{Key: "zone", Op: placement.NotIn, Values: []string{"z1"}}}}))
 	}
 	// peer ids handed out by the allocator stay away from store ids and origin peer ids
 	for i := 0; i < 5000; i++ {
@@ -1222,6 +1230,13 @@ func scopes() []*scope {
 			gen: concat(
 				genHelpers(mkEnvs(4, envStates(4, 1, kinds4, []int{0, 3}), l0, f3, r0), origins(4, 3, false), targets(4, 3, true), true, true),
 				genHelpers(mkEnvs(4, envStates(4, 1, []int{sOffline, sEvicted}, []int{0, 3}), l0, f3, r0), origins(4, 3, true), targets(4, 2, true), false, false))},
+
+		{name: "leader+follower-rules/4-5stores", tiers: "quick",
+			desc: "placement rules 'leader x1 in z1' + 'follower x2 outside z1' on the label layout z1 z1 z2 z2 (z3): every helper with every store argument on joint-state and plain origins <=3 peers of 4 stores; SetPeers origins <=3 x targets <=3 of 5 stores, {plain, force}; 3 feature levels",
+			gen: concat(
+				genHelpers(mkEnvs(4, [][]int{allUp(4)}, []int{1}, f3, []int{3}), origins(4, 3, true), targets(4, 2, true), false, false),
+				genHelpers(mkEnvs(4, [][]int{allUp(4)}, []int{1}, f3, []int{3}), origins(4, 3, false), targets(4, 3, true), false, true),
+				genSetPeers(mkEnvs(5, [][]int{allUp(5)}, []int{1}, f3, []int{3}), origins(5, 3, false), targets(5, 3, true), plainForce, false))},
 
 		// thorough
 		{name: "setpeers/6stores/all-up", tiers: "thorough",
